@@ -241,6 +241,7 @@ pub fn batch(engine: &dyn Engine, a: &BatchArgs) -> i32 {
             }
             let out = dir.join(format!("w{}-{}.log", w, generation));
             let _ = fs::remove_file(&out);
+            let errfile = dir.join(format!("w{}-{}.err", w, generation));
             let child = Command::new(exe())
                 .arg("worker")
                 .args(["--prop", &a.prop, "--tier", &a.tier])
@@ -251,14 +252,49 @@ pub fn batch(engine: &dyn Engine, a: &BatchArgs) -> i32 {
                 .arg("--out")
                 .arg(&out)
                 .stdout(Stdio::null())
-                .stderr(Stdio::piped())
+                .stderr(fs::File::create(&errfile).map(Stdio::from).unwrap_or_else(|_| Stdio::null()))
                 .spawn()
                 .expect("spawn worker");
-            children.push((w, out, child));
+            children.push((w, out, errfile, child));
         }
         pending.clear();
-        for (w, out, child) in children {
-            let output = child.wait_with_output().expect("wait worker");
+        // wait for the workers; a worker whose output does not grow for `STALL` seconds is blocked
+        // (a real OS-level deadlock or an endless loop inside one run): kill it and attribute the
+        // hang to the run it was executing
+        const STALL: u64 = 150;
+        let mut finished: Vec<(u64, PathBuf, PathBuf, std::process::ExitStatus, bool)> = Vec::new();
+        let mut progress: Vec<(u64, Instant)> = children.iter().map(|_| (0, Instant::now())).collect();
+        let mut active: Vec<Option<(u64, PathBuf, PathBuf, std::process::Child)>> =
+            children.into_iter().map(Some).collect();
+        while active.iter().any(|c| c.is_some()) {
+            for (idx, slot) in active.iter_mut().enumerate() {
+                let done = match slot {
+                    Some((_, out, _, child)) => match child.try_wait() {
+                        Ok(Some(st)) => Some((st, false)),
+                        Ok(None) => {
+                            let len = fs::metadata(&*out).map(|m| m.len()).unwrap_or(0);
+                            if len != progress[idx].0 {
+                                progress[idx] = (len, Instant::now());
+                                None
+                            } else if progress[idx].1.elapsed() > Duration::from_secs(STALL) {
+                                let _ = child.kill();
+                                child.wait().ok().map(|st| (st, true))
+                            } else {
+                                None
+                            }
+                        }
+                        Err(_) => None,
+                    },
+                    None => None,
+                };
+                if let Some((st, stalled)) = done {
+                    let (w, out, errfile, _) = slot.take().unwrap();
+                    finished.push((w, out, errfile, st, stalled));
+                }
+            }
+            std::thread::sleep(Duration::from_millis(20));
+        }
+        for (w, out, errfile, status, stalled) in finished {
             let text = fs::read_to_string(&out).unwrap_or_default();
             let mut started: Option<(u64, u64)> = None;
             let mut last_viol_index: Option<u64> = None;
@@ -317,9 +353,13 @@ pub fn batch(engine: &dyn Engine, a: &BatchArgs) -> i32 {
                     _ => {}
                 }
             }
-            let ok = output.status.success();
+            let ok = status.success();
             if !ok {
-                let st = status_text(&output.status);
+                let st = if stalled {
+                    format!("no progress for {} s, killed", STALL)
+                } else {
+                    status_text(&status)
+                };
                 let mut next = None;
                 if let Some((i, seed)) = started {
                     // the worker died inside run i without reporting: a crash of the host process
@@ -331,8 +371,9 @@ pub fn batch(engine: &dyn Engine, a: &BatchArgs) -> i32 {
                         w["class"].as_str().map(|c| format!(" [workload class {}]", c)).unwrap_or_default()
                     };
                     let st = format!("{}{}", st, class);
-                    let v = Violation::new("crash", format!("worker process died: {}", st));
-                    let stderr_tail: String = String::from_utf8_lossy(&output.stderr)
+                    let v = Violation::new(if stalled { "hang" } else { "crash" }, format!("worker process died: {}", st));
+                    let stderr_tail: String = fs::read_to_string(&errfile)
+                        .unwrap_or_default()
                         .lines()
                         .rev()
                         .take(6)
@@ -348,10 +389,10 @@ pub fn batch(engine: &dyn Engine, a: &BatchArgs) -> i32 {
                         "workload": Value::Null,
                         "tape": Value::Null,
                         "violation": { "oracle": v.oracle, "detail": v.detail, "stderr": stderr_tail },
-                        "signature": crash_signature(&a.prop, &st),
+                        "signature": v.signature(&a.prop),
                     }));
                     next = Some(i + a.workers);
-                } else if output.status.code() == Some(97) {
+                } else if status.code() == Some(97) {
                     // reported a fatal violation itself; continue after it
                     next = last_viol_index.map(|i| i + a.workers);
                 } else {
@@ -560,10 +601,12 @@ impl<'a> Tester<'a> {
             match child.try_wait() {
                 Ok(Some(st)) => break st,
                 Ok(None) => {
-                    if t0.elapsed() > Duration::from_secs(60) {
+                    let hang_target = self.target.contains("/hang/worker process died");
+                    if t0.elapsed() > Duration::from_secs(if hang_target { 30 } else { 60 }) {
                         let _ = child.kill();
                         let _ = child.wait();
-                        return None;
+                        // a run that blocks again reproduces a reported hang
+                        return if hang_target { Some(Value::Null) } else { None };
                     }
                     std::thread::sleep(Duration::from_millis(2));
                 }
